@@ -72,6 +72,7 @@ def configs(tier, seed):
     for i, (p, ma, q, mb) in enumerate(pairs):
         cfgs.append(dict(name=f"join p={p} {ma} | q={q} {mb}", kind="join", p=p, ma=ma, q=q, mb=mb, k=i))
     cfgs.append(dict(name="join gap", kind="joingap"))
+    cfgs.append(dict(name="rational rejoin", kind="ratjoin"))
     return cfgs
 
 
@@ -255,5 +256,20 @@ def _joingap(env, cfg):
     env.fail("A | B with max(A) != min(B) did not raise ValueError")
 
 
+def _ratjoin(env, cfg):
+    """pieces of a rational curve joined again (known finding F13: A | B drops the weights)"""
+    from compmec.nurbs import Curve
+    from .c08 import conc_weights
+    vals = [Fraction(0), Fraction(1, 3), Fraction(1)]
+    kv = KV(vals, [3, 1, 3])
+    P = env.reals("P", kv.n)
+    W = conc_weights(kv.n, 2)
+    c = Curve(list(kv.U), P, W)
+    a, b = c.split([Fraction(1, 2)])
+    j = a | b
+    kvj = kmode.lib_kv(j)
+    kmode.same_function(env, "rational: split then join", kv, P, W, kvj, list(j.ctrlpoints), None if j.weights is None else list(j.weights))
+
+
 def body(env, cfg):
-    {"split": _split, "rejoin": _rejoin, "join": _join, "joingap": _joingap}[cfg["kind"]](env, cfg)
+    {"split": _split, "rejoin": _rejoin, "join": _join, "joingap": _joingap, "ratjoin": _ratjoin}[cfg["kind"]](env, cfg)
